@@ -64,6 +64,10 @@ contract(
         " == old(old(self._level_to_section)[at_return(parent_level)].children)",
         "implies(at_return(parent_level) + 1 == level, section.parent.children"
         " == old(old(self._level_to_section)[at_return(parent_level)].children) + [section])",
+        # no other node's child list changes (the warning, if any, goes to the current node)
+        "forall_obj('Element', lambda e: implies(old(allocated(e)) and e != section.parent and e != self.current_node,"
+        " e.children == old(e.children)))",
+        "section.children == old(section.children) or section == self.current_node or section == section.parent",
         # exactly one non-consecutive-heading warning iff a level is skipped, none otherwise
         "implies(at_return(parent_level) + 1 != level, self.document.log == old(self.document.log) + ['header'])",
         "implies(at_return(parent_level) + 1 == level, self.document.log == old(self.document.log))",
@@ -74,6 +78,6 @@ contract(
         "forall(level + 1, None, lambda k: k not in self._level_to_section)",
     ],
     modifies=["self._level_to_section", "self.document.log", "Element.children", "section.parent"],
-    types={"section": "Element"},
+    types={"section": "Element", "parent_level": "int"},
     properties=["C05", "C03"],
 )
